@@ -2,10 +2,12 @@ module verifharness
 
 go 1.23
 
-require rare v0.0.0
+require (
+	github.com/araddon/dateparse v0.0.0-20210207001429-0eec95c9db7e
+	rare v0.0.0
+)
 
 require (
-	github.com/araddon/dateparse v0.0.0-20210207001429-0eec95c9db7e // indirect
 	github.com/cpuguy83/go-md2man/v2 v2.0.2 // indirect
 	github.com/fsnotify/fsnotify v1.4.9 // indirect
 	github.com/russross/blackfriday/v2 v2.1.0 // indirect
